@@ -25,8 +25,11 @@ use std::panic::{catch_unwind, AssertUnwindSafe};
 use std::rc::Rc;
 use vharness::*;
 
+mod oracle_c01;
+mod oracle_c02;
 mod oracle_c05;
 mod oracle_c06;
+mod oracle_c17;
 mod oracle_c07;
 mod oracle_c18;
 mod script_c05;
@@ -82,6 +85,70 @@ impl SyllableEditor for SharedLayout {
 
 thread_local! {
     static ALT_CACHE: RefCell<Vec<Box<[Syllable]>>> = const { RefCell::new(Vec::new()) };
+}
+
+// C01: a hang inside the editor becomes an observable outcome without a watchdog thread: every system
+// dictionary layer is wrapped in a transparent proxy that counts the look-ups of the current operation
+// and panics (marker HUNG) when an operation makes more than LOOKUP_FUEL of them (the loops of the
+// selectors and of the conversion all consult the dictionary in every iteration).
+const LOOKUP_FUEL: u64 = 400_000;
+
+thread_local! {
+    static LOOKUPS: std::cell::Cell<u64> = const { std::cell::Cell::new(0) };
+    static HUNG: std::cell::Cell<bool> = const { std::cell::Cell::new(false) };
+}
+
+fn tick_lookup() {
+    let n = LOOKUPS.with(|c| {
+        c.set(c.get() + 1);
+        c.get()
+    });
+    if n > LOOKUP_FUEL {
+        HUNG.with(|h| h.set(true));
+        panic!("verif: look-up fuel of one operation exhausted");
+    }
+}
+
+#[derive(Debug)]
+struct FuelDict(TrieBuf);
+
+impl Dictionary for FuelDict {
+    fn lookup_first_n_phrases(&self, syllables: &dyn chewing::zhuyin::SyllableSlice, first: usize, strategy: LookupStrategy) -> Vec<Phrase> {
+        tick_lookup();
+        self.0.lookup_first_n_phrases(syllables, first, strategy)
+    }
+    fn lookup_first_phrase(&self, syllables: &dyn chewing::zhuyin::SyllableSlice, strategy: LookupStrategy) -> Option<Phrase> {
+        tick_lookup();
+        self.0.lookup_first_phrase(syllables, strategy)
+    }
+    fn lookup_all_phrases(&self, syllables: &dyn chewing::zhuyin::SyllableSlice, strategy: LookupStrategy) -> Vec<Phrase> {
+        tick_lookup();
+        self.0.lookup_all_phrases(syllables, strategy)
+    }
+    fn entries(&self) -> chewing::dictionary::Entries<'_> {
+        self.0.entries()
+    }
+    fn about(&self) -> chewing::dictionary::DictionaryInfo {
+        self.0.about()
+    }
+    fn path(&self) -> Option<&std::path::Path> {
+        self.0.path()
+    }
+    fn as_dict_mut(&mut self) -> Option<&mut dyn DictionaryMut> {
+        self.0.as_dict_mut()
+    }
+}
+
+fn sink<T>(_: T) {}
+
+/// run `f` with a fresh look-up budget; Err("panic" | "hang")
+fn guarded<T>(f: impl FnOnce() -> T) -> Result<T, &'static str> {
+    LOOKUPS.with(|c| c.set(0));
+    HUNG.with(|h| h.set(false));
+    match catch_unwind(AssertUnwindSafe(f)) {
+        Ok(v) => Ok(v),
+        Err(_) => Err(if HUNG.with(|h| h.get()) { "hang" } else { "panic" }),
+    }
 }
 
 type ConvLog = Rc<RefCell<Vec<(u8, String, Vec<Vec<Interval>>)>>>;
@@ -182,6 +249,9 @@ struct Session {
     user: *const TrieBuf,
     sys: Vec<SysLayer>,
     layout_kind: u8,
+    /// C01: copies of the system layers for the oracle's own look-ups, and the engine actually installed
+    probes: Vec<TrieBuf>,
+    engine_kind: u8,
 }
 
 impl Session {
@@ -211,6 +281,48 @@ impl Session {
             let _ = write!(out, " {}", hx(p));
         }
         out
+    }
+
+    /// C01 class predicate on the current state: a buffered syllable (pre-edit buffer, or the copy an open
+    /// phrase selector works on) without a one-syllable word under a strategy in force (the option's, the
+    /// installed engine's own, the selector's)
+    fn no_word(&self, snap: &str) -> Option<String> {
+        let strat = |fuzzy: bool| if fuzzy { LookupStrategy::FuzzyPartialPrefix } else { LookupStrategy::Standard };
+        let has_word = |syl: Syllable, st: LookupStrategy| -> bool {
+            // SAFETY: see dict_s
+            self.probes.iter().any(|d| d.lookup_first_phrase(&[syl], st).is_some())
+                || unsafe { (*self.user).lookup_first_phrase(&[syl], st).is_some() }
+        };
+        let mut strategies = vec![self.ed.editor_options().lookup_strategy];
+        let own = strat(self.engine_kind == 2);
+        if !strategies.contains(&own) {
+            strategies.push(own);
+        }
+        for sym in self.ed.symbols() {
+            if let Some(syl) = sym.to_syllable() {
+                for st in &strategies {
+                    if !has_word(syl, *st) {
+                        return Some(format!("syllable {:#x} has no word under {:?} (engine {})", syl.to_u16(), st, self.engine_kind));
+                    }
+                }
+            }
+        }
+        // `S <page> <I|R> P <begin> <end> <fwd> <orig> <strategy> <n> <sym>…`
+        let state: Vec<&str> = step::sections(snap)[0].split(' ').collect();
+        if state.len() > 9 && state[0] == "S" && state[3] == "P" {
+            let st = strat(state[8] == "1");
+            let n: usize = state[9].parse().unwrap_or(0);
+            for tok in state.iter().skip(10).take(n) {
+                if let Some(code) = tok.strip_prefix('s').and_then(|c| c.parse::<u16>().ok()) {
+                    if let Ok(syl) = Syllable::try_from(code) {
+                        if !has_word(syl, st) {
+                            return Some(format!("syllable {:#x} of the open phrase selector has no word under {:?}", code, st));
+                        }
+                    }
+                }
+            }
+        }
+        None
     }
 
     /// what the layout would answer to this event from its current state, computed on clones
@@ -556,15 +668,29 @@ fn gen_op(rng: &mut Rng, s: &Session, pool: &[(Syllable, Vec<KeyCode>)], pending
         return Op::Key(code, m);
     }
     let selecting = s.ed.is_selecting();
+    // C02: a commit string is still in the buffer and symbols remain (an overflow just happened): make the
+    // next overflow come from `select()`, which does not reset the commit buffer first
+    if !focus
+        && !selecting
+        && s.ed.last_key_behavior() == EditorKeyBehavior::Commit
+        && !s.ed.is_empty()
+        && !s.ed.display_commit().is_empty()
+        && rng.chance(1, 3)
+    {
+        return overflow_by_select(rng, s, pending);
+    }
+    // column `c01` is C01's scenario arm (words removed under a composed syllable, engine switches), the last
+    // three are C02's (known phrases + Tab + commit routes, breaks, overflow by select); the C07 profile keeps
+    // its own mix (it has its own removal-of-a-displayed-candidate arm)
     let w: Vec<u32> = if focus && selecting {
-        //   syl sym  nav del  open page choose tab commit mode opts api  learn reset jump
-        vec![1, 1, 1, 1, 1, 18, 9, 0, 0, 1, 3, 3, 2, 0, 8]
+        //   syl sym  nav del  open page choose tab commit mode opts api  learn reset jump c01 phrase break ovsel
+        vec![1, 1, 1, 1, 1, 18, 9, 0, 0, 1, 3, 3, 2, 0, 8, 0, 0, 0, 0]
     } else if focus {
-        vec![30, 9, 12, 3, 22, 1, 2, 3, 1, 1, 3, 3, 2, 0, 0]
+        vec![30, 9, 12, 3, 22, 1, 2, 3, 1, 1, 3, 3, 2, 0, 0, 0, 0, 0, 0]
     } else if selecting {
-        vec![2, 1, 2, 1, 1, 14, 10, 0, 1, 1, 2, 6, 1, 1, 4]
+        vec![2, 1, 2, 1, 1, 14, 10, 0, 1, 1, 2, 6, 1, 1, 4, 1, 0, 0, 0]
     } else {
-        vec![30, 8, 10, 6, 10, 1, 2, 5, 3, 3, 4, 4, 3, 1, 0]
+        vec![30, 8, 10, 6, 10, 1, 2, 5, 3, 3, 4, 4, 3, 1, 0, 2, 8, 3, 2]
     };
     let choice = rng.weighted(&w);
     if focus {
@@ -748,8 +874,139 @@ fn gen_op(rng: &mut Rng, s: &Session, pool: &[(Syllable, Vec<KeyCode>)], pending
             }
         }
         13 => Op::Clear,
-        _ => Op::Jump(rng.below(4) as u8),
+        14 => Op::Jump(rng.below(4) as u8),
+        15 => {
+            // C01: histories in which the stock of words changes under a composed syllable
+            let mut seq: Vec<Op> = vec![];
+            match rng.below(3) {
+                0 => {
+                    // learn a word for a syllable (preferably one the system layers have no word for), type the
+                    // syllable, forget the learnt word again
+                    let bare: Vec<&(Syllable, Vec<KeyCode>)> = pool
+                        .iter()
+                        .filter(|e| !s.probes.iter().any(|d| d.lookup_first_phrase(&[e.0], LookupStrategy::Standard).is_some()))
+                        .collect();
+                    let (syl, keys) = if !bare.is_empty() && rng.chance(2, 3) { *rng.pick(&bare) } else { rng.pick(pool) };
+                    let ch = gen_phrase(rng, 1);
+                    seq.push(Op::Learn(vec![*syl], ch.clone()));
+                    seq.extend(keys.iter().map(|k| Op::Key(*k, plain)));
+                    if rng.chance(1, 3) {
+                        seq.push(Op::Key(*rng.pick(&[Left, Home, Down, End]), plain));
+                    }
+                    seq.push(Op::Unlearn(vec![*syl], ch));
+                }
+                1 => {
+                    // forget a phrase the user dictionary holds (learnt explicitly or by auto-learn)
+                    // SAFETY: see Session::dict_s
+                    let (btree, _, _, _, _) = unsafe { (*s.user).verif_snapshot() };
+                    if btree.is_empty() {
+                        seq.push(Op::SetEngine(rng.below(3) as u8));
+                    } else {
+                        let e = rng.pick(&btree);
+                        seq.push(Op::Unlearn(e.0.clone(), e.1.clone()));
+                    }
+                }
+                _ => {
+                    // switch the engine with a (possibly partial) syllable composed under the previous one
+                    seq.push(Op::SetEngine(*rng.pick(&[2u8, 2, 0, 1])));
+                    let (_, keys) = rng.pick(pool);
+                    let cut = if rng.chance(1, 2) { 1 + rng.below(keys.len() as u64) as usize } else { keys.len() };
+                    seq.extend(keys[..cut].iter().map(|k| Op::Key(*k, plain)));
+                    if cut < keys.len() {
+                        let (_, more) = rng.pick(pool);
+                        seq.extend(more.iter().map(|k| Op::Key(*k, plain)));
+                    }
+                    seq.push(Op::SetEngine(*rng.pick(&[1u8, 1, 0, 2])));
+                }
+            }
+            seq.reverse();
+            let first = seq.pop().unwrap();
+            pending.extend(seq);
+            first
+        }
+        16 => {
+            // type the syllables of a phrase the dictionary knows (so that alternatives read differently,
+            // phrase intervals get committed, breaks can fall inside a phrase)
+            let known: Vec<&(Vec<Syllable>, String, u32)> = s
+                .sys
+                .iter()
+                .flatten()
+                .filter(|e| e.0.len() >= 2 && e.0.iter().all(|x| pool.iter().any(|p| p.0 == *x)))
+                .collect();
+            if known.is_empty() {
+                return Op::Key(Tab, plain);
+            }
+            let e = *rng.pick(&known);
+            let mut syls: Vec<Syllable> = e.0.clone();
+            // C02: chain a phrase that starts with the last syllable of the first one: only OVERLAPPING phrases
+            // survive the engine's path trimming as alternatives that read differently (AB|C vs A|BC)
+            let chain: Vec<&&(Vec<Syllable>, String, u32)> =
+                known.iter().filter(|f| f.0[0] == *syls.last().unwrap() && f.0 != e.0).collect();
+            if !chain.is_empty() && rng.chance(3, 4) {
+                let f = **rng.pick(&chain);
+                syls.extend_from_slice(&f.0[1..]);
+            }
+            let mut seq: Vec<Op> = vec![];
+            let expect = s.ed.len() + syls.len();
+            let mut o = s.ed.editor_options();
+            if o.auto_commit_threshold < expect && rng.chance(2, 3) {
+                o.auto_commit_threshold = expect + rng.below(3) as usize;
+                seq.push(Op::SetOpts(o));
+            }
+            for syl in &syls {
+                let keys = &pool.iter().find(|p| p.0 == *syl).unwrap().1;
+                seq.extend(keys.iter().map(|k| Op::Key(*k, plain)));
+            }
+            if rng.chance(1, 2) {
+                for _ in 0..(1 + rng.below(3)) {
+                    seq.push(Op::Key(Tab, plain));
+                }
+                // … and commit what the chosen alternative shows, by every route
+                match rng.below(8) {
+                    0 | 1 => seq.push(Op::Key(Enter, plain)),
+                    2 => seq.push(Op::Commit),
+                    3 | 4 => {
+                        o.auto_commit_threshold = rng.below(expect as u64) as usize;
+                        seq.push(Op::SetOpts(o));
+                        seq.extend(rng.pick(pool).1.iter().map(|k| Op::Key(*k, plain)));
+                    }
+                    5 => {
+                        o.auto_commit_threshold = rng.below(expect as u64) as usize;
+                        seq.push(Op::SetOpts(o));
+                        seq.push(Op::StartSel);
+                        seq.push(Op::Select(0));
+                    }
+                    _ => {}
+                }
+            }
+            seq.reverse();
+            let first = seq.pop().unwrap();
+            pending.extend(seq);
+            first
+        }
+        17 => {
+            // a break / glue inside the buffer
+            pending.push(Op::Key(Tab, plain));
+            if rng.chance(1, 2) {
+                pending.push(Op::Key(Left, plain));
+            }
+            Op::Key(Left, plain)
+        }
+        _ => overflow_by_select(rng, s, pending),
     }
+}
+
+/// lower the threshold below the current length, open the candidate list through the API, choose
+fn overflow_by_select(rng: &mut Rng, s: &Session, pending: &mut Vec<Op>) -> Op {
+    let len = s.ed.len();
+    if len == 0 {
+        return Op::StartSel;
+    }
+    let mut o = s.ed.editor_options();
+    o.auto_commit_threshold = rng.below(len as u64) as usize;
+    pending.push(Op::Select(*rng.pick(&[0usize, 0, 0, 1])));
+    pending.push(Op::StartSel);
+    Op::SetOpts(o)
 }
 
 fn op_s(op: &Op, ev: &Option<KeyEvent>) -> String {
@@ -792,6 +1049,8 @@ fn main() {
     let thorough = tier_is_thorough();
     let mut n_sessions: u64 = if thorough { 6000 } else { 400 };
     let mut ops_per: u64 = if thorough { 80 } else { 60 };
+    let mut c17_queries = false;
+    let mut c17_stats = oracle_c17::Stats::new();
     let mut script_name: Option<String> = None;
     // `--profile c07`: selection-heavy histories (small pages, rearward choice, symbol lists, jumps)
     let mut focus = false;
@@ -810,6 +1069,8 @@ fn main() {
                 ops_per = args[i + 1].parse().unwrap();
                 i += 1;
             }
+            // C17: one `edq` record (all getters, compared with the model) per step
+            "--queries" => c17_queries = true,
             "--script" => {
                 // scripted sessions (c18: exhaustive character sweep, c05: limit overshoots) instead of generated ones
                 script_name = Some(args[i + 1].clone());
@@ -827,6 +1088,12 @@ fn main() {
     std::panic::set_hook(Box::new(|_| {}));
     let mut out = Out::new();
     let seed = seed_from_env();
+    if args.iter().any(|a| a == "--c17-pairs") {
+        // C17: paired executions only (with/without getters, reset vs fresh, alone vs beside another context)
+        oracle_c17::run_pairs(&mut out, seed, thorough);
+        out.flush();
+        return;
+    }
     let pool = pool(focus);
     out.stat("pool_syllables", pool.len());
     let kb = Qwerty;
@@ -834,11 +1101,31 @@ fn main() {
     let mut n_hang_guard = 0u64;
     let mut state_hist = [0u64; 4];
     let mut beh_hist = [0u64; 4];
+    // C01
+    let (mut n_hang, mut n_getter_fail, mut n_noword_steps, mut n_noword_sessions, mut max_lookups) = (0u64, 0u64, 0u64, 0u64, 0u64);
+    let mut noword_via: std::collections::BTreeMap<String, u64> = Default::default();
+    let (mut n_engine_switch_mid, mut n_engine_switch_partial, mut n_unlearn_hit_buffered) = (0u64, 0u64, 0u64);
 
     for sid in 0..n_sessions {
         let mut rng = Rng::new(seed.wrapping_mul(1_000_003).wrapping_add(sid));
         let words_for_all = !rng.chance(1, 6);
         let sys: Vec<SysLayer> = (0..(1 + rng.below(2))).map(|_| gen_layer(&mut rng, &pool, words_for_all)).collect();
+        // C02: overlapping phrase pairs (a b) / (b c) in two sessions out of three (own stream: the other choices are
+        // unchanged) — the engine offers alternatives that READ differently only for overlapping phrases
+        let mut rng_c02 = Rng::new(seed.wrapping_mul(7_777_777).wrapping_add(sid));
+        let mut sys = sys;
+        if rng_c02.chance(2, 3) {
+            for _ in 0..(1 + rng_c02.below(3)) {
+                let (a, b, c) = (rng_c02.pick(&pool).0, rng_c02.pick(&pool).0, rng_c02.pick(&pool).0);
+                for k in [vec![a, b], vec![b, c]] {
+                    let p = gen_phrase(&mut rng_c02, 2);
+                    let f = *rng_c02.pick(&[1u32, 10, 100, 100, 500, 1000]);
+                    if !sys[0].iter().any(|e| e.0 == k && e.1 == p) {
+                        sys[0].push((k, p, f));
+                    }
+                }
+            }
+        }
         let sys_boxes: Vec<Box<dyn Dictionary>> = sys
             .iter()
             .map(|layer| {
@@ -846,7 +1133,17 @@ fn main() {
                 for (k, p, f) in layer {
                     DictionaryMut::add_phrase(&mut d, k, Phrase::new(p.as_str(), *f)).unwrap();
                 }
-                Box::new(d) as Box<dyn Dictionary>
+                Box::new(FuelDict(d)) as Box<dyn Dictionary>
+            })
+            .collect();
+        let probes: Vec<TrieBuf> = sys
+            .iter()
+            .map(|layer| {
+                let mut d = TrieBuf::new_in_memory();
+                for (k, p, f) in layer {
+                    DictionaryMut::add_phrase(&mut d, k, Phrase::new(p.as_str(), *f)).unwrap();
+                }
+                d
             })
             .collect();
         let user = Box::new(TrieBuf::new_in_memory());
@@ -876,13 +1173,18 @@ fn main() {
         for _ in 0..rng.below(4) {
             o = gen_opts(&mut rng, &o, engine_kind, focus);
         }
+        // C02: every third session starts with a small buffer limit (own stream: the other choices are unchanged)
+        if rng_c02.chance(1, 3) {
+            o.auto_commit_threshold = rng_c02.below(8) as usize;
+        }
         ed.set_editor_options(o);
-        let mut s = Session { ed, lay, conv_log, user: user_ptr, sys, layout_kind };
+        let mut s = Session { ed, lay, conv_log, user: user_ptr, sys, layout_kind, probes, engine_kind };
         let uniform = rng.chance(1, 8);
         let mut pending: Vec<Op> = vec![];
         let mut history: Vec<String> = vec![];
         // the open candidate list as reported after the previous operation (= before this one)
         let mut cand_pre: Option<CandView> = None;
+        let mut noword_seen = false;
 
         let mut script18 = script_name.as_ref().filter(|n| *n != "c05").map(|_| script_c18::Script::new(sid, thorough));
         let mut script05 = script_name.as_ref().filter(|n| *n == "c05").map(|_| script_c05::Script::new(sid, thorough));
@@ -899,9 +1201,11 @@ fn main() {
             };
             // `PhraseSelector::next` (Down / Space at the last page) never returns when no range starting
             // at the highlighted syllable has a phrase any more (a user-only word removed while the list
-            // is open; C01's hang class).  A hang cannot be caught in-process: steer around it.
+            // is open; C01's hang class).  The C07 profile steers around it (it removes displayed candidates
+            // all the time and a hang ends the session); the other runs let it happen: C01's look-up fuel
+            // (`FuelDict`) turns it into the observable outcome "hang".
             if let Op::Key(KeyCode::Down | KeyCode::Space, _) = op {
-                if s.ed.is_selecting() && s.ed.symbols().iter().filter_map(|x| x.to_syllable()).any(|x| s.held_for(&[x]).is_empty()) {
+                if focus && s.ed.is_selecting() && s.ed.symbols().iter().filter_map(|x| x.to_syllable()).any(|x| s.held_for(&[x]).is_empty()) {
                     n_hang_guard += 1;
                     op = Op::Key(KeyCode::Esc, Modifiers::default());
                 }
@@ -913,6 +1217,10 @@ fn main() {
             let pre = s.ed.verif_snapshot();
             let dict_pre = s.dict_s();
             let lay_ans = s.layout_answers(ev);
+            // what the application sees before the operation (C02); getters only, before the log is reset
+            LOOKUPS.with(|c| c.set(0));
+            let display_pre = catch_unwind(AssertUnwindSafe(|| s.ed.display())).ok();
+            let len_pre = s.ed.len();
             s.conv_log.borrow_mut().clear();
             let st_ix = match pre.as_bytes()[0] {
                 b'E' => 0,
@@ -928,7 +1236,22 @@ fn main() {
                 n_uniform += 1;
             }
             let mut new_layout_state = String::new();
-            let res = catch_unwind(AssertUnwindSafe(|| -> String {
+            // C01: the class predicate on the pre-state, and how often the generator builds the situations behind F02 / F03
+            let no_word_pre = s.no_word(&pre);
+            if no_word_pre.is_some() {
+                n_noword_steps += 1;
+            }
+            match &op {
+                Op::SetEngine(k) if *k != s.engine_kind && !s.ed.is_empty() => {
+                    n_engine_switch_mid += 1;
+                    if s.ed.symbols().iter().filter_map(|y| y.to_syllable()).any(|y| !s.probes.iter().any(|d| d.lookup_first_phrase(&[y], LookupStrategy::Standard).is_some())) {
+                        n_engine_switch_partial += 1;
+                    }
+                }
+                Op::Unlearn(k, _) if k.len() == 1 && s.ed.symbols().iter().any(|y| y.to_syllable() == Some(k[0])) => n_unlearn_hit_buffered += 1,
+                _ => {}
+            }
+            let res = guarded(|| -> String {
                 match &op {
                     Op::Key(..) => kb_s(s.ed.process_keyevent(ev.unwrap())).to_string(),
                     Op::Select(n) => if s.ed.select(*n).is_ok() { "ok".into() } else { "err".into() },
@@ -952,6 +1275,7 @@ fn main() {
                         // like chewing_config_set_int("chewing.conversion_engine")
                         let mut o = s.ed.editor_options();
                         s.ed.set_conversion_engine(engine(*k, &s.conv_log));
+                        s.engine_kind = *k;
                         o.conversion_engine = match k {
                             0 => ConversionEngineKind::SimpleEngine,
                             2 => ConversionEngineKind::FuzzyChewingEngine,
@@ -973,9 +1297,11 @@ fn main() {
                         if r.is_ok() { "ok".into() } else { "err".into() }
                     }
                 }
-            }));
+            });
+            max_lookups = max_lookups.max(LOOKUPS.with(|c| c.get()).min(LOOKUP_FUEL));
             n_ops += 1;
             let conv_ans = s.conv_answers();
+            let conv_step = s.conv_log.borrow().clone();
             let mut opstr = op_s(&op, &ev);
             if let Op::SetLayout(_) = op {
                 let _ = write!(opstr, " {}", if new_layout_state.is_empty() { lay_state(&**s.lay.borrow()) } else { new_layout_state.clone() });
@@ -988,17 +1314,64 @@ fn main() {
                     let post = s.ed.verif_snapshot();
                     let dict_post = s.dict_s();
                     history.push(opstr.clone());
+                    // C01: every read-only accessor on the post-state (none of them changes the editor)
+                    let no_word_post = s.no_word(&post);
+                    if no_word_post.is_some() && no_word_pre.is_none() {
+                        *noword_via.entry(opstr.split(' ').next().unwrap_or("").to_string()).or_insert(0) += 1;
+                        if !noword_seen {
+                            noword_seen = true;
+                            n_noword_sessions += 1;
+                        }
+                    }
+                    let mut getter_fail: Option<(&str, &str)> = None;
+                    {
+                        let ed = &s.ed;
+                        let accessors: [(&str, &dyn Fn()); 12] = [
+                            ("display", &|| sink(ed.display())),
+                            ("intervals", &|| sink(ed.intervals().count())),
+                            ("len/cursor/is_empty", &|| sink((ed.len(), ed.cursor(), ed.is_empty(), ed.is_entering(), ed.is_selecting(), ed.entering_syllable(), ed.last_key_behavior()))),
+                            ("syllable_buffer_display", &|| sink((ed.syllable_buffer_display(), ed.syllable_buffer()))),
+                            ("display_commit/notification", &|| sink((ed.display_commit().len(), ed.notification().len()))),
+                            ("paginated_candidates", &|| sink(ed.paginated_candidates())),
+                            ("all_candidates", &|| sink(ed.all_candidates())),
+                            ("total_page", &|| sink(ed.total_page())),
+                            ("current_page_no", &|| sink(ed.current_page_no())),
+                            ("has_next_selection_point", &|| sink(ed.has_next_selection_point())),
+                            ("has_prev_selection_point", &|| sink(ed.has_prev_selection_point())),
+                            ("editor_options/symbols", &|| sink((ed.editor_options(), ed.symbols().len()))),
+                        ];
+                        for (name, f) in accessors.iter() {
+                            if let Err(how) = guarded(f) {
+                                getter_fail = Some((name, how));
+                                break;
+                            }
+                            max_lookups = max_lookups.max(LOOKUPS.with(|c| c.get()).min(LOOKUP_FUEL));
+                        }
+                    }
+                    s.conv_log.borrow_mut().clear();
+                    // C07: the open candidate list as the getters report it (a getter that fails is `panicked`)
+                    LOOKUPS.with(|c| c.set(0));
                     let cand_post = s.cand_view(&post);
+                    // C02: what is shown / committed after the operation
+                    let display_post = catch_unwind(AssertUnwindSafe(|| s.ed.display())).ok();
+                    let commit_post = s.ed.display_commit().to_string();
+                    s.conv_log.borrow_mut().clear();
                     let step = Step {
                         op: &opstr, key: ev, pre: &pre, post: &post, ret: &ret,
                         dict_pre: &dict_pre, dict_post: &dict_post, history: &history, seed, sid,
                         cand_pre: cand_pre.as_ref(), cand_post: cand_post.as_ref(),
+                        outcome: "ok", no_word_pre: no_word_pre.as_deref(), no_word_post: no_word_post.as_deref(), getter_fail,
+                        display_pre: display_pre.as_deref(), display_post: display_post.as_deref(),
+                        len_pre, len_post: s.ed.len(), commit_post: &commit_post, conv: &conv_step,
                     };
                     // the properties, evaluated directly on the real editor (one module per property)
+                    oracle_c02::check(&mut out, &step);
                     oracle_c05::check(&mut out, &step);
                     oracle_c06::check(&mut out, &step);
+                    oracle_c17::after_step(&mut out, &step, &s, c17_queries, &mut c17_stats);
                     oracle_c07::check(&mut out, &step);
                     oracle_c18::check(&mut out, &step);
+                    oracle_c01::check(&mut out, &step);
                     out.rec(&format!(
                         "ed {} | {} | {} | {} {} => ok | {} | {} | {}",
                         opstr, pre, dict_pre, lay_ans, conv_ans, post, ret, dict_post
@@ -1011,20 +1384,39 @@ fn main() {
                         ));
                     }
                     cand_pre = cand_post;
+                    if let Some((_, how)) = getter_fail {
+                        n_getter_fail += 1;
+                        if how == "hang" {
+                            n_hang += 1;
+                        }
+                        // every later read would fail the same way: end the session
+                        break;
+                    }
                 }
-                Err(_) => {
-                    n_panic += 1;
+                Err(how) => {
                     history.push(opstr.clone());
                     let step = Step {
                         op: &opstr, key: ev, pre: &pre, post: &pre, ret: "panic",
                         dict_pre: &dict_pre, dict_post: &dict_pre, history: &history, seed, sid,
                         cand_pre: cand_pre.as_ref(), cand_post: None,
+                        outcome: how, no_word_pre: no_word_pre.as_deref(), no_word_post: None, getter_fail: None,
+                        display_pre: display_pre.as_deref(), display_post: None,
+                        len_pre, len_post: len_pre, commit_post: "", conv: &conv_step,
                     };
-                    oracle_c07::check_panic(&mut out, &step);
-                    out.rec(&format!(
-                        "ed {} | {} | {} | {} {} => panic",
-                        opstr, pre, dict_pre, lay_ans, conv_ans
-                    ));
+                    oracle_c01::check(&mut out, &step);
+                    if how == "hang" {
+                        // no transcript record: the model's verdict for a loop that does not end is `outOfFuel`,
+                        // which the driver cannot compare with a record; the oracle line above carries the history
+                        n_hang += 1;
+                        out.sample(&format!("hang (look-up fuel) in `{}` session {}", opstr, sid));
+                    } else {
+                        n_panic += 1;
+                        oracle_c07::check_panic(&mut out, &step);
+                        out.rec(&format!(
+                            "ed {} | {} | {} | {} {} => panic",
+                            opstr, pre, dict_pre, lay_ans, conv_ans
+                        ));
+                    }
                     // the editor may be left inconsistent: end the session
                     break;
                 }
@@ -1048,8 +1440,22 @@ fn main() {
     out.stat("beh_commit", beh_hist[1]);
     out.stat("beh_bell", beh_hist[2]);
     out.stat("beh_absorb", beh_hist[3]);
+    out.stat("c01_hangs", n_hang);
+    out.stat("c01_accessor_failures", n_getter_fail);
+    out.stat("c01_steps_from_noword_state", n_noword_steps);
+    out.stat("c01_sessions_reaching_noword_state", n_noword_sessions);
+    for (k, n) in &noword_via {
+        out.stat(&format!("c01_noword_state_entered_by.{}", k), n);
+    }
+    out.stat("c01_engine_switch_mid_composition", n_engine_switch_mid);
+    out.stat("c01_engine_switch_with_partial_syllable", n_engine_switch_partial);
+    out.stat("c01_unlearn_of_buffered_syllable", n_unlearn_hit_buffered);
+    out.stat("c01_max_lookups_in_one_operation", max_lookups);
+    out.stat("c01_lookup_fuel", LOOKUP_FUEL);
+    c17_stats.print(&mut out);
     out.stat("profile_c07", focus as u8);
     out.stat("down_keys_replaced_by_hang_guard", n_hang_guard);
     oracle_c07::finish(&mut out);
+    oracle_c02::stats(&mut out);
     out.flush();
 }
